@@ -300,6 +300,15 @@ pub fn check_trait<S: Oversize>(c: &Case, ctx: &mut CaseCtx) -> Result<(), Failu
                         let v2 = guard_plain(|| sess.polys[0].polynomial().evaluate(&at));
                         let consistent = matches!(v2, Out::Ok(x) if x == v);
                         ctx.check(!accepted(&rc) || consistent, sig(P, S::NAME, "check", &format!("{what}_wrong_value_accepted")), || format!("{what}: a value the polynomial does not take was accepted"))?;
+                        // the proof the prover made *for the malformed point* must not establish the value at the
+                        // well-formed point either, unless the scheme defines a reading under which that is true
+                        let vz = sess.true_value(0, &z);
+                        let mut sp = sess.sponge();
+                        let mut r = rng(sel);
+                        let rz = guard(|| S::PC::check(&keys.vk, [&sess.comms[0]], &bad, [vz], &pr, &mut sp, Some(&mut r)));
+                        let vr = guard_plain(|| sess.polys[0].polynomial().evaluate(&at));
+                        let fine = matches!(vr, Out::Ok(x) if x == vz) && reading.is_some() || (what == "point_too_long" && S::is_zero_poly(sess.polys[0].polynomial()));
+                        ctx.check(!accepted(&rz) || fine, sig(P, S::NAME, "check", &format!("{what}_accepted")), || format!("{what}: a proof made for the malformed point verifies there for the polynomial's value at the well-formed point"))?;
                         ctx.label("served_but_sound");
                     }
                     _ => {
